@@ -88,7 +88,7 @@ class XSpec:
         self.timeout = timeout
         self.env = {k: str(v) for k, v in (env or {}).items()}
         self.bounds = bounds or {}
-        self.path_timeout = path_timeout or max(20, int(timeout ** 0.5) + 1)
+        self.path_timeout = path_timeout or max(90, int(timeout ** 0.5) + 1)
         self.reach_timeout = reach_timeout or timeout   # the twin stops at its first witness; the budget is only an upper limit
 
 
